@@ -24,7 +24,7 @@ EXPLANATION = (
     "many '$' as arguments, a format that embeds run-time text has no arguments, and the logger logs an argument-free "
     "format verbatim; (ii) code that is control-dependent on a log-level test only logs or saves/restores the log "
     "level; (iii) the stack-trace flag only selects message detail. "
-    "R16h every API method that runs main() catches the exit, keeps its code and hands it to what builds its answer. Not decided: CR-LF and final-newline equality of the two line splitters; the locale decoding of sys.stdin itself."
+    "R16h every API method that runs main() catches the exit, keeps its code and hands it to what builds its answer. R16i every text-mode open of document content decodes strictly (no errors= handler). R16j the API's repeatable options are lists that only grow (no remove / pop / clear / re-assignment outside the constructor) and one option method records one option, so that the command line main() sees is the one the caller spelled out. Not decided: CR-LF and final-newline equality of the two line splitters; the locale decoding of sys.stdin itself."
 )
 ASSUMPTIONS = [
     "argparse rejects options that no add_argument registered (so an unknown API option cannot be silently ignored)",
@@ -238,6 +238,37 @@ def r16c(ctx: Context) -> None:
                 rule.ok(key, f"mode {mode!r}, utf-8")
             else:
                 rule.fail(key, site.where, f"document text is opened in text mode {mode!r} without encoding='utf-8': it is written or read in the locale's encoding while the other side uses UTF-8, so non-ASCII documents differ between entry points")
+
+
+def strict_decoding(ctx: Context, rule_id: str = "R16i") -> None:
+    """A document that is not valid UTF-8 is a system error (exit 1 in both schemes) on every entry point:
+    every text-mode open of document content decodes strictly - no errors= handler that replaces, ignores or
+    escapes what cannot be decoded (the scan would succeed on a text that is not the file's)."""
+    prog = ctx.prog
+    rule = ctx.rule(rule_id, "every text-mode open of document content decodes strictly (no errors= handler)", 6)
+    scope = ("pymarkdown/file_scan_helper.py", "pymarkdown/general/source_providers.py", "pymarkdown/api.py")
+    for func in prog.iter_functions():
+        if func.rel not in scope:
+            continue
+        for site in prog.sites_in(func):
+            ext = site.external or ""
+            node = site.node
+            if ext == "builtins.open":
+                mode = _mode_of(node, 1) or "r"
+                positional = node.args[4] if len(node.args) > 4 else None
+            elif ext == "tempfile.NamedTemporaryFile":
+                mode = _mode_of(node, 0) or "w+b"
+                positional = node.args[5] if len(node.args) > 5 else None
+            else:
+                continue
+            if "b" in mode:
+                continue
+            errors = positional or next((k.value for k in node.keywords if k.arg == "errors"), None)
+            key = func_key(func, node)
+            if errors is None or (isinstance(errors, ast.Constant) and errors.value in (None, "strict")):
+                rule.ok(key, f"mode {mode!r}, strict")
+            else:
+                rule.fail(key, site.where, f"document text is opened with errors={norm(errors)}: bytes that are not UTF-8 are replaced or dropped instead of raising, so an undecodable file is scanned (or rewritten) as some other text and the run ends in success / triggered / fixed where the documented result is a system error")
 
 
 def r16d(ctx: Context) -> None:
@@ -626,11 +657,85 @@ def r16h(ctx: Context) -> None:
                 rule.fail(key, where(method, handler), f"{method.short} keeps the exit code in '{kept[0]}' but nothing after the call reads it")
 
 
+def api_options_only_accumulate(ctx: Context, rule_id: str = "R16j") -> None:
+    """The API hands main() the command line its caller spelled out, call by call: a repeatable option (rules to
+    enable, rules to disable, --set values, plugin paths) is kept in a list that only grows.  An option method that
+    takes entries out of a list - its own or a sibling's ('the later call wins') - makes the API decide what the
+    application decides (for -d X -e X the application says 'disabled' in either order), so the same selection gives
+    different reports through the API and on the command line.  And one option method records one option."""
+    prog = ctx.prog
+    rule = ctx.rule(rule_id, "repeatable API options are lists that only grow; an option method records one option", 4)
+    api = prog.cls(API)
+    init = api.methods.get("__init__")
+    if init is None:
+        raise AnalysisError("PyMarkdownApi.__init__ not found (anchor moved)")
+    this = init.params[0]
+
+    def field_of(node: ast.AST, me: str) -> Optional[str]:
+        if isinstance(node, ast.Attribute) and isinstance(node.value, ast.Name) and node.value.id == me:
+            return node.attr
+        return None
+
+    list_fields: Set[str] = set()
+    all_fields: Set[str] = set()
+    for node in walk_local(init.node):
+        if isinstance(node, (ast.Assign, ast.AnnAssign)) and node.value is not None:
+            for target in node.targets if isinstance(node, ast.Assign) else [node.target]:
+                name = field_of(target, this)
+                if name:
+                    all_fields.add(name)
+                    if isinstance(node.value, ast.List) or (isinstance(node.value, ast.Call) and dotted(node.value.func) == "list"):
+                        list_fields.add(name)
+    for name, method in sorted(api.methods.items()):
+        if method is init or not method.params:
+            continue
+        me = method.params[0]
+        written: Set[str] = set()
+        shrinking: List[Tuple[ast.AST, str, str]] = []
+        for node in walk_local(method.node):
+            if isinstance(node, ast.Call) and isinstance(node.func, ast.Attribute):
+                field = field_of(node.func.value, me)
+                if field in list_fields:
+                    if node.func.attr in ("remove", "pop", "clear", "__delitem__"):
+                        shrinking.append((node, field, f".{node.func.attr}()"))
+                    if node.func.attr in ("append", "extend", "insert", "remove", "pop", "clear", "sort", "reverse"):
+                        written.add(field)
+            elif isinstance(node, (ast.Assign, ast.AugAssign, ast.AnnAssign)):
+                for target in node.targets if isinstance(node, ast.Assign) else [node.target]:
+                    field = field_of(target, me)
+                    if field:
+                        written.add(field)
+                        if field in list_fields and not isinstance(node, ast.AugAssign):
+                            shrinking.append((node, field, "is re-assigned"))
+                    if isinstance(target, ast.Subscript) and field_of(target.value, me) in list_fields:
+                        written.add(field_of(target.value, me) or "")
+            elif isinstance(node, ast.Delete):
+                for target in node.targets:
+                    base = target.value if isinstance(target, ast.Subscript) else target
+                    field = field_of(base, me)
+                    if field in list_fields:
+                        shrinking.append((node, field, "del"))
+        for node, field, how in shrinking:
+            rule.fail(f"PyMarkdownApi.{name}: {field} only grows", where(method, node), f"'{field}' {how} in {method.short}: what an earlier API call asked for is taken back before the command line is built, so the application never sees it (with -d X -e X it answers 'disabled' whatever the order; the API now answers by call order) - the API and the command line disagree on the same selection")
+        option_writes = written & all_fields
+        fluent = any(isinstance(n, ast.Return) and isinstance(n.value, ast.Name) and n.value.id == me for n in walk_local(method.node))
+        if fluent and not name.startswith("_"):
+            key = f"PyMarkdownApi.{name}: one option"
+            if len(option_writes) <= 1:
+                rule.ok(key, f"records {sorted(option_writes) or 'through a sibling'}")
+            else:
+                rule.fail(key, where(method), f"{method.short} writes {sorted(option_writes)}: one API call changes another option as well, which no single command-line option does")
+    for field in sorted(list_fields):
+        rule.ok(f"PyMarkdownApi.{field}", "list-valued option")
+
+
 def run(ctx: Context) -> None:
     r16a(ctx)
     r16b(ctx)
     r16c(ctx)
+    strict_decoding(ctx)
     r16d(ctx)
     r16e(ctx)
     api_results_from_presentation(ctx)
     r16h(ctx)
+    api_options_only_accumulate(ctx)
